@@ -279,17 +279,14 @@ impl<'a> CompilerState<'a> {
 
     // Index in mapped_lines of the preprocessed line containing offset loc
     fn line_of(&self, loc: usize) -> usize {
-        let mut line_number: usize = 0;
-        let mut char_number = 0;
-        for c in self.preprocessed_utf8.chars() {
-            if char_number == loc {
-                break;
-            }
-            if c == '\n' {
-                line_number += 1;
-            }
-            char_number += 1;
-        }
+        // loc is a byte offset (it comes from the parser), not a number of characters
+        let mut line_number: usize = self
+            .preprocessed_utf8
+            .as_bytes()
+            .iter()
+            .take(loc)
+            .filter(|b| **b == b'\n')
+            .count();
         if line_number >= self.mapped_lines.len() {
             line_number = self.mapped_lines.len().saturating_sub(1);
         }
